@@ -34,16 +34,22 @@ def gdpStep (h : Hist R) (sigma q : R) : Except Err (Hist R) :=
 
 /-- one component of `sum([compute_rdp(q, sigma, steps, alphas) for … in history])`
 (Python's `sum` starts from `0` and adds left to right) -/
+def histRdpFrom (cfg : Cfg R) (alpha : Order R) : EV R → Hist R → Except Err (EV R)
+  | acc, [] => .ok acc
+  | acc, e :: t =>
+    match computeRdp1 cfg e.2.1 e.1 alpha with
+    | .error err => .error err
+    | .ok r => histRdpFrom cfg alpha (acc.add (r.mulNat e.2.2)) t
+
 def histRdp (cfg : Cfg R) (h : Hist R) (alpha : Order R) : Except Err (EV R) :=
-  h.foldlM (fun acc e => (computeRdp1 cfg e.2.1 e.1 alpha).map (fun r => acc.add (r.mulNat e.2.2)))
-    (.fin (ofNat 0))
+  histRdpFrom cfg alpha (.fin (ofNat 0)) h
 
 /-- `RDPAccountant.get_privacy_spent(delta=, alphas=)` -/
 def acctPrivacySpent (cfg : Cfg R) (h : Hist R) (delta : R) (orders : List (Order R)) :
     Except Err (EV R × Option (Order R)) :=
   if h.isEmpty then .ok (.fin (ofNat 0), some (.int 0))
   else
-    match orders.mapM (histRdp cfg h) with
+    match mapE (histRdp cfg h) orders with
     | .error e => .error e
     | .ok rdp => getPrivacySpent orders rdp delta
 
